@@ -158,7 +158,7 @@ class Closures(Stage):
 # ------------------------------------------------------------------------------------------------
 # differential: the same history through GDB mode (stand-in) and through log mode
 
-PROFILE = dict(reuse=0.6, weights=dict(repeat=4, newer=4, delete=16, bind=10, message=46, server_event=10, sync=4, enum=8, title=4, retype=12, arrays=12, server_retype=8, twins=8, long_line=3))
+PROFILE = dict(reuse=0.6, weights=dict(repeat=4, newer=4, delete=16, bind=10, message=46, server_event=10, sync=4, enum=8, title=4, retype=12, arrays=12, server_retype=8, twins=8, long_line=3, nulls=8, null_strings=10))
 ARR = re.compile(r'\[(?:\.\.\.|[^\[\]\'"]*)\]')      # array contents (elements may carry enum labels) are not retained by the print-out
 LIFE = re.compile(r' after -?\d+\.\d{4}s')
 
